@@ -17,6 +17,13 @@ import (
 
 var errC04Injected = errors.New("c04: injected read error")
 
+type c04Spin struct{}
+
+// lines handed out by the previous case's scanner, re-read after the next scanner has run (a scanner that
+// recycles buffers through a shared pool overwrites them)
+var c04PrevHeld, c04PrevSnap [][]byte
+var c04PrevDesc string
+
 // c04Reader hands out data as the tape dictates and records what it did.
 type c04Reader struct {
 	t        *simrt.Tape
@@ -65,6 +72,10 @@ func (r *c04Reader) Read(p []byte) (int, error) {
 	}
 	if len(p) == 0 {
 		r.zeroLenP++
+		if r.zeroLenP > 5000 {
+			// a scanner that keeps asking with an empty buffer will never make progress
+			panic(c04Spin{})
+		}
 		return 0, nil
 	}
 	lim := r.limit()
@@ -265,17 +276,36 @@ func c04One(rc *RunCtx) (c04Case, uint64, bool) {
 	var held [][]byte // the slices as handed out
 	var snap [][]byte // their contents at hand-out time
 	budget := len(data) + 16
-	for i := 0; ; i++ {
-		if i > budget {
-			rc.Violate("scan-unbounded", "%s(buf=%d) over %q: Scan returned true more than %d times (reads: %v)", cs.Kind, cs.BufSize, data, budget, rd.script)
-			break
+	spun := func() (spun bool) {
+		defer func() {
+			if r := recover(); r != nil {
+				if _, ok := r.(c04Spin); !ok {
+					panic(r)
+				}
+				spun = true
+			}
+		}()
+		for i := 0; ; i++ {
+			if i > budget {
+				rc.Violate("scan-unbounded", "%s(buf=%d) over %q: Scan returned true more than %d times (reads: %v)", cs.Kind, cs.BufSize, data, budget, rd.script)
+				break
+			}
+			if !sc.Scan() {
+				break
+			}
+			b := sc.Bytes()
+			held = append(held, b)
+			snap = append(snap, append([]byte(nil), b...))
 		}
-		if !sc.Scan() {
-			break
+		return false
+	}()
+	if spun {
+		s := fmt.Sprint(rd.script)
+		if len(s) > 200 {
+			s = s[:200] + "…"
 		}
-		b := sc.Bytes()
-		held = append(held, b)
-		snap = append(snap, append([]byte(nil), b...))
+		rc.Violate("scan-does-not-terminate", "%s(buf=%d) over %q: Scan called Read with an empty buffer more than 5000 times in a row without returning (reads so far: %s)", cs.Kind, cs.BufSize, clip(string(data), 120), s)
+		return cs, 0, false
 	}
 	// Scan stays false
 	for i := 0; i < 3; i++ {
@@ -320,6 +350,14 @@ func c04One(rc *RunCtx) (c04Case, uint64, bool) {
 			break
 		}
 	}
+	// the lines of the previous case's scanner must have survived this scanner's life
+	for i := range c04PrevHeld {
+		if !bytes.Equal(c04PrevHeld[i], c04PrevSnap[i]) {
+			rc.Violate("aliasing-across-scanners", "line %d of an earlier scanner was %q when handed out and reads %q after another scanner was created and run\n earlier: %s\n this: %s", i, c04PrevSnap[i], c04PrevHeld[i], c04PrevDesc, desc())
+			break
+		}
+	}
+	c04PrevHeld, c04PrevSnap, c04PrevDesc = held, snap, desc()
 	if rd.errGiven {
 		if onErr != 1 {
 			rc.Violate("onerror-count", "a non-EOF error was returned by the reader once; OnError fired %d times\n %s", onErr, desc())
@@ -388,6 +426,7 @@ func c04One(rc *RunCtx) (c04Case, uint64, bool) {
 func init() {
 	worlds["C04"] = func(rc *RunCtx) {
 		const per = 16
+		c04PrevHeld, c04PrevSnap, c04PrevDesc = nil, nil, "" // runs are independent of each other
 		var samples []c04Case
 		for i := 0; i < per; i++ {
 			cs, h, nt := c04One(rc)
